@@ -1,4 +1,5 @@
 import PicoProofs.EncProg
+import PicoProofs.GoTieEncoder
 import PicoProofs.Tie
 /-
 C17 — Results are independent of buffer provenance; arguments are never modified.
@@ -21,6 +22,26 @@ theorem C17_no_stale_exposed (oracle : Nat → Bytes) (tag p : Bytes) (ok : Bool
     dataOf (anyBytesLowWith Buf.resliceToStrict oracle tag fn b) = dataOf (anyBytesLow oracle tag fn b) ∧
     ∃ r, anyBytesLowWith Buf.resliceToStrict oracle tag fn b = .ok r :=
   no_stale_exposed oracle tag p ok fn hfn hsz b
+
+/-- the same about the Go source itself: `GoSrc.Encoder.anyBytes` is the statement-level translation
+of encoder.go `anyBytes` (reserve two length bytes, run the callback, re-encode the length minimally,
+`copy`, `PutUvarint` into a window, re-slice), regenerated from the working tree on every run -/
+theorem C17_source_anyBytes_refines (oracle : Nat → Bytes) (field : Int) (p : Bytes) (ok : Bool)
+    (fn : Buf → Res (Buf × Bool)) (hfn : AppendOnly fn p ok) (b : Buf)
+    (hsz : b.data.length + (Pico.Enc.appendTag field 2).length + 2 + p.length < 9223372036854775808) :
+    dataOf (GoSrc.Encoder.anyBytes oracle field fn b)
+      = some (if ok then b.data ++ Pico.Enc.appendTag field 2 ++ Wire.varint p.length ++ p else b.data, ok) := by
+  have hstart : (GoTie.E.start oracle field b).data = b.data ++ Pico.Enc.appendTag field 2 ++ List.replicate 2 (0 : Byte) := by
+    unfold GoTie.E.start Buf.append; split <;> split <;> rfl
+  have hg : GoTie.E.Grows fn (GoTie.E.start oracle field b) := by
+    intro b' ok' h
+    obtain ⟨t, ht⟩ := hfn (GoTie.E.start oracle field b)
+    rw [ht] at h
+    cases h
+    simp only [Buf.len, hstart, List.length_append, List.length_replicate]
+    omega
+  rw [GoTie.E.anyBytes_eq oracle field fn b hg (by simp only [Buf.len]; omega)]
+  exact anyBytesLow_refines oracle _ p ok fn hfn (by omega) b
 
 /-- whole encoder programs (any nesting of Message / PresentMessage / AlwaysMessage / packed
 writers around appending writers): `MarshalBuffer` with ANY buffer and `Marshal` produce the
